@@ -1532,7 +1532,7 @@ class FortranWriter(LanguageWriter):
             if isinstance(parent, BinaryOperation):
                 parent_fort_oper = self.get_operator(parent.operator)
                 if (node is parent.children[1] or
-                        (parent_fort_oper == "**" and fort_oper == "-")):
+                        parent_fort_oper == "**"):
                     return f"({fort_oper}{content})"
                 grandparent = parent.parent
                 # Case: 'a op1 (-b) op2 c'
